@@ -13,6 +13,7 @@ import (
 	"fmt"
 	"io"
 	"strings"
+	"sync"
 	"testing"
 
 	"jetverif/core"
@@ -229,7 +230,7 @@ func judgeC16(c c16Case) (v core.Verdict) {
 	opts := []jet.Option{jet.WithTemplateNameExtensions(c.Exts), jet.DevelopmentMode(c.Dev)}
 	var rc *recCache
 	if c.RecCache {
-		rc = &recCache{m: map[string]*jet.Template{}, trace: &trace}
+		rc = &recCache{mu: new(sync.Mutex), m: map[string]*jet.Template{}, trace: &trace}
 		opts = append(opts, jet.WithCache(rc))
 	}
 	s := jet.NewSet(fl, opts...)
